@@ -9,6 +9,7 @@ import Pulsar.RapidSyntax
 import Pulsar.Timepb
 import Pulsar.Anyutil
 import Pulsar.Gen
+import Pulsar.GenTables
 import Std.Data.HashMap
 open Pulsar Pulsar.Syntax
 
@@ -31,6 +32,16 @@ def resNat : Res Nat → String
 
 def parseFlags (s : String) : UOpts :=
   { merge := s.contains 'm', discard := s.contains 'd' }
+
+/-- `deptab` command: the Go type table and dependency index table (Pulsar.GenTables). Lists are comma separated,
+    `-` is the empty list; the typed fields of the messages are separated by `;` (one group per message). -/
+def listOf (sep : String) (s : String) : List String := if s == "-" || s == "" then [] else s.splitOn sep
+def showList (l : List String) : String := if l.isEmpty then "-" else ",".intercalate l
+def deptabAnswer (enums msgs deps methods : String) : String :=
+  let fieldDeps := if deps == "-" then [] else (deps.splitOn ";").map (fun g => if g == "" then [] else g.splitOn ",")
+  let ms := (listOf "," methods).map (fun m => match m.splitOn ">" with | [a, b] => (a, b) | _ => (m, m))
+  let t := Pulsar.Gen.typeTables (listOf "," enums) (listOf "," msgs) fieldDeps ms
+  "ok " ++ showList t.goTypes ++ " " ++ showList (t.deps.map toString) ++ " " ++ showList (t.offsets.map toString)
 
 /-- answer of the `features` / `param` commands (formats documented at the top of Pulsar/Gen.lean) -/
 def featuresAnswer (flag : Option String) : String :=
@@ -146,6 +157,7 @@ def step (st : St) (line : String) : St × String :=
          | .error _ => "err")
   | ["goname", n] => (st, Gen.goFieldName n)
   | ["msgindex", forest, fullname] => (st, msgindexAnswer forest fullname)
+  | ["deptab", enums, msgs, deps, methods] => (st, deptabAnswer enums msgs deps methods)
   | ["flatten", forest] =>
     (st, match Gen.parseTops forest with
          | some tops => "ok " ++ ",".intercalate ((Gen.allMessages tops).map Gen.dotted)
